@@ -318,6 +318,32 @@ func (c *Checker) Check(t *gen.Term) (ty *gen.Ty, err *TypeErr) {
 			return nil, terr("no field %s in %s", t.Name, ot)
 		}
 		return ft, nil
+	case "dcall":
+		ft, err := c.Check(t.Args[0])
+		if err != nil {
+			return nil, err
+		}
+		if ft.K != gen.KFun {
+			return nil, terr("call of a non-function %s", ft)
+		}
+		args := make([]*gen.Ty, len(t.Args)-1)
+		for i, a := range t.Args[1:] {
+			at, err := c.Check(a)
+			if err != nil {
+				return nil, err
+			}
+			args[i] = at
+		}
+		ps, ret, ok := instantiate(&Sig{Name: ft.Name, Params: ft.Params, Ret: ft.Ret}, args)
+		if !ok {
+			return nil, terr("arguments %v do not fit %s", args, ft)
+		}
+		for i := range args {
+			if !gen.Equal(ps[i], args[i]) {
+				return nil, terr("parameter %s vs argument %s", ps[i], args[i])
+			}
+		}
+		return ret, nil
 	case "call":
 		args := make([]*gen.Ty, len(t.Args))
 		for i, a := range t.Args {
